@@ -317,6 +317,8 @@ impl<'repo> Stack<'repo> {
             .find_reference(&self.stack_refname)?
             .peel_to_commit()?;
         let prev_state_commit_id = prev_state_commit.id;
+        #[cfg(stgit_verif)]
+        crate::verif_point::point("extmods.prev_read")?;
         let state = self
             .state
             .advance_head(self.branch_head.clone(), Rc::new(prev_state_commit));
